@@ -472,6 +472,7 @@ fn translate_block(
                 | capstone::mips_insn::MIPS_INS_BEQZ
                 | capstone::mips_insn::MIPS_INS_BGEZ
                 | capstone::mips_insn::MIPS_INS_BGTZ
+                | capstone::mips_insn::MIPS_INS_BLEZ
                 | capstone::mips_insn::MIPS_INS_BLTZ
                 | capstone::mips_insn::MIPS_INS_BNE
                 | capstone::mips_insn::MIPS_INS_BNEZ
@@ -482,6 +483,16 @@ fn translate_block(
                 | capstone::mips_insn::MIPS_INS_JAL
                 | capstone::mips_insn::MIPS_INS_JALR
                 | capstone::mips_insn::MIPS_INS_JR => {
+                    // A branch in the delay slot of another branch is
+                    // UNPREDICTABLE, and we cannot express it.
+                    if let TranslateBranchDelay::DelaySlot(..)
+                    | TranslateBranchDelay::DelaySlotFallThrough(..) = branch_delay
+                    {
+                        return Err(Error::Custom(format!(
+                            "Branch in a branch delay slot at 0x{:x}",
+                            instruction.address
+                        )));
+                    }
                     if bytes.len() == DEFAULT_TRANSLATION_BLOCK_BYTES && offset + 8 >= bytes.len() {
                         successors.push((address + offset as u64, None));
                         break;
